@@ -22,7 +22,8 @@ CFG = dict(
          "ConfigureLanceroSource / Start / Stop: rejected configurations (unknown card, duplicate card), optionally a failing Start, then a valid configuration and a "
          "Start that must succeed; replies compared with the remembered-configuration-error automaton). `udpBad` (1 case in quick: the real AbacoSource over a loopback UDP port with a sender "
          "goroutine; ONE undecodable datagram arrives while valid packets keep coming: blocks must still be processed, Stop must return within 3 s, Inactive, Configure + restart). "
-         "After every failed Start the real "
+         "`fastTri` (2 cases in quick: a real TriangleSource that cannot keep up with its "
+         "own schedule - 2 samples per buffer at 10 MHz, 8 channels -, a few blocks, optionally the loop held 3 ms, 1-3 concurrent Stops, restart). After every failed Start the real "
          "object's completion barrier is observed (runDone.Wait() returns? run-done channel closed?) and judged: Inactive <-> counter 0. The logged "
          "trace must be a run of the Lean transition system; return values, GetState(), goroutine census, writing flag and UDP-port re-bindability "
          "must equal the model's and satisfy the property oracle; a watchdog turns a hang into the output `hang 1`. Non-trivial = at least two "
